@@ -10,6 +10,9 @@ from ..core import HarnessError
 ID = 'C04'
 TITLE = 'dt() maps every spelling of an instant to the same datetime'
 LEVEL = 'exploration'
+TECHNIQUE = 'runtime monitoring: oracle = the instant itself; exhaustive sweep of every day of the 400-year cycle through ~45 spellings, wrong-dialect rejections, dt2str/ymd round trips, overflow grid'
+LEVEL_TEXT = 'Thorough enumerates the whole finite domain of days (exhaustive over days x listed spellings); quick samples it. A check says held on K observed executions, never verified.'
+LEVEL_NOTE = 'Trusted: datetime/strftime for rendering spellings; numpy [ns] only below year 2262; C locale month names.'
 RULE = ('a case is one calendar day (with one random intraday instant) pushed through every supported spelling; quick: all days of 1900, 1999-2001, 2100, 2299, '
         'every month\'s 1st/12th/13th/last over 1900-2299, all leap days and 3000 random days; thorough: EVERY day of [1900-01-01, 2300-01-01) (exhaustive) plus the '
         'full month/day overflow grid; non-trivial day = ambiguous (day<=12, day!=month) or unambiguous (day>12, where the wrong dialect must be rejected); distinct = distinct day')
